@@ -577,4 +577,7 @@ func TestC02(t *testing.T) {
 		gen.NonTrivial("rot", nFiles, nInline, fmt.Sprint(listed))
 		gen.Sample("rot", rp["detail"])
 	})
+	gen.Direct(t, "embedded-root-and-a-re-rooted-sample", func(t *testing.T) {
+		intelReRootedCheck(t, "accepted => the leaf chains through the intermediate carried in the quote to a trusted root")
+	})
 }
